@@ -369,9 +369,12 @@ void getOffsetAndCount(const Tag &tag, const DataArray &array, NDSize &offset, N
         position.pop_back();
         extent.pop_back();
     }
+    // dimensions the tag does not specify are padded with the full axis: [first, last] coordinate
+    const size_t specified = position.size();
     while (position.size() < dim_count) {
-        position.push_back(get<0>(max_extents[position.size()]));
-        extent.push_back(get<1>(max_extents[extent.size()]));
+        const pair<double, double> &full = max_extents[position.size()];
+        position.push_back(get<0>(full));
+        extent.push_back(get<1>(full) - get<0>(full));
     }
 
     if (units.size() == 0) {
@@ -387,8 +390,9 @@ void getOffsetAndCount(const Tag &tag, const DataArray &array, NDSize &offset, N
     NDSize temp_offset(position.size());
     NDSize temp_count(position.size(), 1);
     for (size_t i = 0; i < position.size(); ++i) {
+        const double end_position = i < specified ? position[i] + extent[i] : get<1>(max_extents[i]);
         vector<optional<pair<ndsize_t, ndsize_t>>> ranges = positionToIndex({position[i]},
-                                                                             {position[i] + extent[i]},
+                                                                             {end_position},
                                                                              {units[i]},
                                                                              match,
                                                                              dimensions[i]);
